@@ -156,7 +156,7 @@ func (m *Message) decodeAVPs(b []byte) error {
 			return fmt.Errorf("Failed to decode AVP: %s", err)
 		}
 		m.AVP = append(m.AVP, a)
-		n += a.Len()
+		n += a.wireLen()
 	}
 	return nil
 }
